@@ -1,6 +1,6 @@
 -------------------------- MODULE MediaCacheTrace --------------------------
 (* Trace judge for C12.  A trace is one real request:
-     [stack, framing, handler: "json"|"form"|"none", body: "empty"|"valid"|"truncated"|"badenc"|"cut", wire, ev]
+     [stack, framing, handler: "json"|"form"|"none", body: "empty"|"valid"|"truncated"|"badenc"|"hookfail"|"cut", wire, ev]
    body is classified by the trusted decoders (json.loads / bytes.decode); "cut" is a truncated
    form body, for which the handler may give a mapping or a malformed error (both runs are tried).
    ev: one event per get_media()/media access inside the responder, logged at its return:
@@ -18,7 +18,8 @@
      P:touch    the body stream was read again after the single parse
      P:reparse  the handler parsed more than once
      P:wire     the error reached the client with another status than 400 / 415
-     D:errid    an equal error but not the identical exception object                         *)
+     P:errsame  the handler's own (non-media) exception was not re-raised as the same object
+     D:errid    an equal media error but not the identical exception object                         *)
 EXTENDS MediaCache, Json, IOUtils
 
 Traces == JsonDeserialize(IOEnv.TRACE_FILE)
@@ -44,9 +45,10 @@ JudgeP(e, x, np, firstParse) ==
     ELSE IF e.out = "val" /\ T.body # "cut" /\ ~e.eq THEN "P:eq"
     ELSE IF e.touched /\ ~firstParse THEN "P:touch"
     ELSE IF e.nparse > np THEN "P:reparse"
+    ELSE IF e.out = "err" /\ x.ek = "custom" /\ ~e.errsame THEN "P:errsame"
     ELSE "ok"
 
-JudgeD(e, x) == IF e.out = "err" /\ x.ek # "unsupported" /\ ~e.errsame THEN "D:errid" ELSE "ok"
+JudgeD(e, x) == IF e.out = "err" /\ x.ek \notin {"unsupported", "custom"} /\ ~e.errsame THEN "D:errid" ELSE "ok"
 
 Step ==
     /\ l >= 1 /\ l <= Len(T.ev) /\ verdict = "ok"
